@@ -378,14 +378,16 @@ type seen struct {
 	Scope   int       // scope the operation was issued on
 	Where   string
 	Direct  bool
-	ViaKind string // "type", "key", "group", "arg", "arg-group"
+	ViaKind string   // "type", "key", "group", "arg", "arg-group"
+	ByInv   *kit.Inv // the invocation that received it (arguments only)
 }
 
 // observations lists every (instance, expected owner) pair the history exposed.
 func (x *run) observations() (out []seen, problems []*Failure) {
 	m := x.M
+	var curInv *kit.Inv
 	add := func(e *kit.Entry, ow kit.Owner, scope int, where string, direct bool, via string) {
-		out = append(out, seen{e, ow, scope, where, direct, via})
+		out = append(out, seen{e, ow, scope, where, direct, via, curInv})
 	}
 	for _, o := range x.R.Obs {
 		if o.Kind != "resolve" || o.Err != nil || o.Panic != nil {
@@ -418,6 +420,7 @@ func (x *run) observations() (out []seen, problems []*Failure) {
 	}
 	for _, inv := range x.W.AllInvs() {
 		reg := m.Regs[inv.Reg]
+		curInv = inv
 		for ai, a := range inv.Args {
 			where := fmt.Sprintf("arg %d (%s) of r%d#%d in s%d", ai, a.Dep, inv.Reg, inv.N, inv.ScopeTag)
 			if a.Dep.Ignored || a.Dep.Builtin != 0 {
@@ -441,7 +444,11 @@ func (x *run) observations() (out []seen, problems []*Failure) {
 				continue
 			}
 			if !a.Present {
-				problems = append(problems, fail("C04", "arg-present", formFeature(reg), "%s received nil although r%d provides it", where, tg[0].Reg))
+				sig := formFeature(reg)
+				if a.Dep.Optional {
+					sig += "/optional"
+				}
+				problems = append(problems, fail("C04", "arg-present", sig, "%s received nil although r%d provides it", where, tg[0].Reg))
 				continue
 			}
 			add(a.Entries[0], tg[0], inv.ScopeTag, where, false, "arg")
